@@ -400,7 +400,7 @@ def run(chk):
                        'Galerkin residual w.r.t. the model operator, independent dense numpy solve per mode)')
     # theorems about the loop REGENERATED from fullSimulation.py: run the translator first
     import subprocess as _sp
-    _tr = _sp.run(['/venv/bin/python', str(common.VERIF / 'harness' / 'translate_driver.py'), '--repo', str(common.REPO)], capture_output=True, text=True)
+    _tr = _sp.run(['/venv/bin/python', str(common.VERIF / 'harness' / 'translate_driver.py'), '--repo', str(common.REPO), '--out', common.generated_dir(chk)], capture_output=True, text=True)
     if _tr.returncode != 0:
         chk.proof_broken.append({'theorem': 'translator (harness/translate_driver.py) refused the source of the time loop', 'log': (_tr.stdout + _tr.stderr)[-800:]})
     chk.proof_side(build=not getattr(chk, 'no_build', False), extra_props=('C15Extra',))
